@@ -276,8 +276,8 @@ package lib
 //@   ensures @C07: result != nil ==> !(d.Transport in r.transports)
 // C10 "announced as new exactly once per lifetime, with the lifetime of its state": tracking a registration (a duplicate
 // of a tracked one included) announces nothing - the only announcement as New is register's, at the moment the
-// registration becomes valid. Closed list of callees: the lock, and the unlocked track.
-//@   callsonly @C10: RWMutex).Lock, RWMutex).Unlock, RegisteredDecoys).track
+// registration becomes valid. Closed list of callees: the lock, the unlocked track / look-up, and logging.
+//@   callsonly @C10: RWMutex).Lock, RWMutex).Unlock, RegisteredDecoys).track, RegisteredDecoys).registrationExists, Logger).
 //@   assigns allof(DecoyRegistration.Valid), allof(DecoyRegistration.regCount), allmaps(r.decoys), allmaps(r.decoys[""]), allmaps(r.decoysTimeouts), allof(DecoyTimeout.status), now(), held(&r.m), acq(&r.m)
 
 //@ func (r *RegisteredDecoys) TrackIfNotExists(d *DecoyRegistration) (bool, error)
